@@ -188,6 +188,17 @@ def replay_schedule(M, kind, pids, evs, now):
             if pc == "create" and after_pc == "critical":
                 crit.add(p)
                 max_overlap = max(max_overlap, len(crit))
+            if isinstance(after_pc, list) and after_pc[0] == "done" and after_pc[1] != "true":
+                # the model says this process has given up without ever holding the lock: the real one must leave without another
+                # file-system step of the lock protocol; whatever it still does is let through here, BEFORE the lock is compared,
+                # so that a loser's clean-up that removes the winner's lock is seen while the winner is running
+                for _ in range(8):
+                    if nxt in (None, "TIMEOUT"):
+                        break
+                    mism.append({"step": i, "proc": p, "model": "gave up (done without the lock)", "real_at": nxt,
+                                 "why": "a process that failed to acquire performs further lock-protocol steps"})
+                    procs[p].release()
+                    nxt = procs[p].waiting_at()
             real_lock = lock_class(sb, pidmap, now)
             model_lock = model_lock_class(tr[i + 1][0])
             # direct oracle: a running holder's lock is never removed or replaced by another process
